@@ -414,3 +414,54 @@ Proof.
 Qed.
 Example binned_blocks_ex : exists l, log_likelihood_poisson_binned ROps ([1] ++ [2]) ([0%Z] ++ [0%Z]) ([0] ++ [1]) = Ok l.
 Proof. destruct (binned_blocks [1] [0%Z] [0] [2] [0%Z] [1] eq_refl eq_refl eq_refl eq_refl) as (l1 & l2 & _ & _ & H & _). eexists; exact H. Qed.
+
+(** ** 2b. Sessions of likelihood requests in one process: every answer is the answer to the request alone,
+    whatever was asked before it (also requests outside the property's ranges) and whatever follows *)
+Section Session.
+Context {T : Type} (Ops : NumOps T).
+
+Lemma lik_session_answer pre q post : forall l,
+  lik_session Ops (pre ++ q :: post) = Ok l ->
+  exists a, nth_error l (length pre) = Some a /\ lik_answer Ops q = Ok a.
+Proof.
+  unfold lik_session. induction pre as [|p pre IH]; intros l H; cbn in H.
+  - destruct (lik_answer Ops q) as [a| | |] eqn:E; cbn in H; try discriminate.
+    destruct (lik_session_from Ops tt post); cbn in H; try discriminate.
+    injection H as <-. exists a. split; reflexivity.
+  - destruct (lik_answer Ops p); cbn in H; try discriminate.
+    destruct (lik_session_from Ops tt (pre ++ q :: post)) as [t| | |] eqn:E; cbn in H; try discriminate.
+    injection H as <-. cbn. apply IH. reflexivity.
+Qed.
+
+Lemma lik_session_history_independent pre pre' post post' q l l' :
+  lik_session Ops (pre ++ q :: post) = Ok l -> lik_session Ops (pre' ++ q :: post') = Ok l' ->
+  nth_error l (length pre) = nth_error l' (length pre') /\ nth_error l (length pre) <> None.
+Proof.
+  intros H H'. destruct (lik_session_answer _ _ _ _ H) as (a & Ha & Ea).
+  destruct (lik_session_answer _ _ _ _ H') as (a' & Ha' & Ea').
+  rewrite Ea in Ea'. injection Ea' as <-. rewrite Ha, Ha'. split; [reflexivity|discriminate].
+Qed.
+
+(* single-bin requests never terminate the process, in range or not *)
+Lemma lik_session_scalar (cs : list (T * Z * T)) :
+  lik_session Ops (map (fun c => ReqLik (fst (fst c)) (snd (fst c)) (snd c)) cs) =
+  Ok (map (fun c => (log_likelihood_poisson Ops (fst (fst c)) (snd (fst c)) (snd c),
+                     likelihood_poisson Ops (fst (fst c)) (snd (fst c)) (snd c))) cs).
+Proof.
+  unfold lik_session. induction cs as [|c cs IH]; [reflexivity|].
+  cbn [map lik_session_from lik_step lik_answer rbind]. rewrite IH. reflexivity.
+Qed.
+End Session.
+
+Lemma lik_session_in_range pre post s (n : nat) b l : 0 < s + b ->
+  lik_session ROps (pre ++ ReqLik s (Z.of_nat n) b :: post) = Ok l ->
+  exists ll lk, nth_error l (length pre) = Some (ll, lk) /\
+    Ok lk = pmf_poisson ROps (s + b) (Z.of_nat n) /\ ll = ln (poisv (s + b) n) /\ ll = ln lk.
+Proof.
+  intros Hm H. destruct (lik_session_answer _ _ _ _ _ H) as (a & Ha & Ea). cbn [lik_answer] in Ea.
+  injection Ea as <-. eexists; eexists. split; [exact Ha|].
+  split; [apply likelihood_is_pmf; exact Hm|]. apply log_likelihood_is_log; exact Hm.
+Qed.
+(* non-vacuity: a scan that starts at signal strength 0 without background (total expectation 0, outside the range) and goes on *)
+Example lik_session_ex : exists l, lik_session ROps ([ReqLik 0 3 0] ++ ReqLik (1/2) (Z.of_nat 3) 0 :: [ReqLik 1 3 0]) = Ok l /\ 0 < 1/2 + 0.
+Proof. eexists. split; [reflexivity|lra]. Qed.
